@@ -93,6 +93,8 @@ def run(ctx):
     r3 = ctx.rule("C16.R3", "RAISE/SIB: _join_versions refuses different versions; channels, observations, measurements: name intersection under 'none' and duplicate count under 'outer' raise InvalidWorkspaceOperation; measurements: POI conflict and parameter-config conflict; combine checks join mode and merge compatibility before joining and joins all four sections", "RAISE", floor=12)
     r4 = ctx.rule("C16.R4", "TABLE: _prune_and_rename renames channel names in channels and observations, modifier names in modifiers, measurement parameters and POI, sample and measurement names at their site; prunes the named items in every place they occur; unknown names are refused before the rebuild", "TABLE", floor=12)
     r6 = ctx.rule("C16.R6", "ALG: _join_items on symbolic item lists: 'none' keeps every item of both sides; 'outer' adds right items that are not identical to a left item; 'left outer' adds right items whose name is new, keeping the left version of a clash; 'right outer' the mirror image; deep merging joins the sub-lists of items with the same name; inputs are not modified", "ALG", floor=5)
+    r7 = ctx.rule("C16.R7", "OBJECT-HISTORY (interpreted): real Workspace objects (Workspace.__init__ through the channel-summary mixin into dict, class-level attributes shared by all instances as in Python) built one after the other in ONE process for two specifications with the SAME channel name and different observations and measurement names; each object's observations / measurement_names / data(model) are its own afterwards; combine(left, right, 'left outer') then leaves both inputs' payload, observations and data() as they were and returns the left observation for the common channel", "HISTORY", floor=1)
+    _object_history(ctx, r7, repo)
     r5 = ctx.rule("C16.R5", "TABLE: sorted sorts channels, samples, measurements, parameters, observations by name and modifiers by (name, type)", "TABLE", floor=6)
 
     # ------------------------------------------------------------ R1
@@ -536,3 +538,96 @@ def _shared_containers(a, b):
 
     walk(a, "result")
     return out
+
+
+def _object_history(ctx, rid, repo):
+    import copy as _copy
+    from ..alg import PyFunc, RaisedInFragment, Undecided, to_poly
+    from ..objmodel import Instance, World, dict_base
+    at = Poly.atom
+    wsc = repo.cls(WS, "Workspace")
+    mix = repo.cls("src/pyhf/mixins.py", "_ChannelSummaryMixin")
+    errs = (Undecided, KeyError, TypeError, ValueError, IndexError, AttributeError)
+
+    def spec(tag, meas):
+        return {"channels": [{"name": "SR", "samples": [{"name": "bkg", "data": [at(f"{tag}b0"), at(f"{tag}b1")], "modifiers": [{"name": "mu", "type": "normfactor", "data": None}]}]}],
+                "observations": [{"name": "SR", "data": [at(f"{tag}o0"), at(f"{tag}o1")]}],
+                "measurements": [{"name": meas, "config": {"poi": "mu", "parameters": []}}], "version": "1.0.0"}
+
+    def show(v):
+        if isinstance(v, (list, tuple)):
+            return [show(x) for x in v]
+        if isinstance(v, dict):
+            return {k: show(x) for k, x in v.items()}
+        return v if v is None or isinstance(v, (str, bool)) else str(to_poly(v))
+
+    try:
+        w = World({"__strict__": True, "deepcopy": lambda a, k: _deep(a[0])}, module_env={"log": Obj("log"), "schema": Obj("schema"), "exceptions": Obj("exceptions"), "copy": Obj("copy"), "jsonpatch": Obj("jsonpatch")})
+        w.add_foreign_base("dict", dict_base())
+        w.add_class(mix).add_class(wsc)
+        m = repo.module(WS)
+        for q, f_ in m.funcs.items():
+            if "." not in q and q != "__dir__":
+                w.add_func(f_)
+        model = Obj("model", {"config": Obj("config", {"channels": ["SR"], "auxdata": [at("aux0")]}, closed=True)}, closed=True)
+        left = w.new(wsc, [spec("L", "left_measurement")], {"validate": False})
+        want_l = {"observations": {"SR": ["Lo0", "Lo1"]}, "measurement_names": ["left_measurement"], "data": ["Lo0", "Lo1"], "data+aux": ["Lo0", "Lo1", "aux0"]}
+        want_r = {"observations": {"SR": ["Ro0", "Ro1"]}, "measurement_names": ["right_measurement"], "data": ["Ro0", "Ro1"], "data+aux": ["Ro0", "Ro1", "aux0"]}
+
+        def state(obj):
+            return {"observations": show(w.get_property(obj, "observations") if "observations" not in obj.attrs and False else _attr(w, obj, "observations")), "measurement_names": show(_attr(w, obj, "measurement_names")),
+                    "data": show(w.call_method(obj, "data", [model], {"include_auxdata": False})), "data+aux": show(w.call_method(obj, "data", [model], {}))}
+
+        s0 = state(left)
+        if s0 != want_l:
+            ctx.violated(rid, wsc.methods["__init__"], "first workspace of the process", "a freshly built workspace does not report its own observations / measurement names / data", expected=str(want_l), found=str(s0))
+            return
+        ctx.holds(rid, f"{WS}::Workspace [first object]", str(s0))
+        right = w.new(wsc, [spec("R", "right_measurement")], {"validate": False})
+        s_r, s_l = state(right), state(left)
+        if s_r != want_r or s_l != want_l:
+            ctx.violated(rid, wsc.methods["__init__"], "two workspaces with a common channel name in one process", "after a second workspace with the same channel name was built, one of the two objects reports the OTHER one's observations / measurement names / data: per-object state lives in a container shared by all Workspace objects (a class-level attribute written through self, a module-level table ...)", expected=f"left {want_l}; right {want_r}", found=f"left {s_l}; right {s_r}")
+            return
+        ctx.holds(rid, f"{WS}::Workspace [second object with the same channel name, same process]", "both objects keep their own observations, measurement names and data")
+        before = (_copy.deepcopy(show(left.attrs.get("__payload__"))), _copy.deepcopy(show(right.attrs.get("__payload__"))))
+        comb = w.call_func(wsc.methods["combine"], [PyFunc(lambda a, k: w.new(wsc, a, k), "Workspace"), left, right], {"join": "left outer", "validate": False})
+        s_c = state(comb) if isinstance(comb, Instance) else None
+        s_l2, s_r2 = state(left), state(right)
+        after = (show(left.attrs.get("__payload__")), show(right.attrs.get("__payload__")))
+        if s_l2 != want_l or s_r2 != want_r or before != after:
+            ctx.violated(rid, wsc.methods["combine"], "combine(left, right, 'left outer'): the inputs afterwards", "combining two workspaces changes what one of the INPUT objects reports (its payload, observations, measurement names or data)", expected=f"left {want_l}; right {want_r}", found=f"left {s_l2}; right {s_r2}; payload unchanged: {before == after}")
+        elif s_c is None or s_c["data"] != want_l["data"] or sorted(s_c["measurement_names"]) != ["left_measurement", "right_measurement"]:
+            ctx.violated(rid, wsc.methods["combine"], "combine(left, right, 'left outer'): the result", "the combined workspace does not carry the left observation of the common channel and the measurements of both", expected=f"data {want_l['data']}, measurements of both", found=str(s_c))
+        else:
+            ctx.holds(rid, f"{WS}::Workspace.combine [left outer, common channel, real objects]", f"inputs untouched; result {s_c}")
+    except RaisedInFragment as e:
+        ctx.violated(rid, wsc, "Workspace object history", f"raises {e.exc_name} on well-formed workspaces")
+    except errs as e:
+        ctx.unrecognised(rid, wsc, "Workspace object history", f"not interpretable: {type(e).__name__}: {e}")
+
+
+def _attr(w, obj, name):
+    """instance attribute, else the class-level one (as attribute lookup does)"""
+    if name in obj.attrs:
+        return obj.attrs[name]
+    for cn in w.mro_names(obj.cls):
+        if name in w.class_state.get(cn, {}):
+            return w.class_state[cn][name]
+    from ..alg import Undecided
+    raise Undecided(f"attribute {name} not set")
+
+
+def _deep(v):
+    """copy.deepcopy over the interpreter's values: containers copied, scalars / polynomials shared (immutable)"""
+    from ..objmodel import Instance
+    if isinstance(v, dict):
+        return {k: _deep(x) for k, x in v.items()}
+    if isinstance(v, list):
+        return [_deep(x) for x in v]
+    if isinstance(v, tuple):
+        return tuple(_deep(x) for x in v)
+    if isinstance(v, Instance):
+        n = Instance(v.cls)
+        n.attrs.update({k: _deep(x) for k, x in v.attrs.items()})
+        return n
+    return v
